@@ -462,6 +462,17 @@ fn sem_case_inner(prop: &str, text: &str, orc: &Oracle, sorting: usize, labels: 
                 }) {
                     cmp_models(&l, &r, &want, n, out);
                 }
+                // ... and a after b (native and pre-grounded hybrid objects)
+                if which <= 1 {
+                    let l = format!("{}.heu_b-then-heu_a", label);
+                    if let Some(r) = guarded(&l, out, st, || {
+                        let mut adf = mk().unwrap();
+                        let _ = adf.stable_count_optimisation_heu_b().collect::<Vec<_>>();
+                        adf.stable_count_optimisation_heu_a().collect::<Vec<_>>()
+                    }) {
+                        cmp_models(&l, &r, &want, n, out);
+                    }
+                }
             }
         }
         _ => machinery_error("sem_case: unknown property"),
